@@ -43,7 +43,8 @@ class Func:
         self.name = node.name
         d = deco_names(node)
         self.decorators = d
-        self.is_property = 'property' in d
+        # (functools.cached_property reads like a property; that what it keeps is dropped when its inputs change is the stale-value rules' concern)
+        self.is_property = 'property' in d or any(x.split('.')[-1] == 'cached_property' for x in d)
         self.is_static = 'staticmethod' in d
         self.is_classmethod = 'classmethod' in d
         self.is_abstract = 'abstractmethod' in d
